@@ -11,6 +11,7 @@ use syn::spanned::Spanned;
 pub struct OutTrait {
     pub attrs: Vec<syn::Attribute>,
     pub vis: syn::Visibility,
+    pub unsafety: Option<syn::token::Unsafe>,
     #[expect(unused)]
     pub trait_token: syn::token::Trait,
     pub generics: TraitGenerics,
@@ -61,6 +62,7 @@ pub fn analyze_trait(item_trait: syn::ItemTrait) -> syn::Result<OutTrait> {
     Ok(OutTrait {
         attrs: item_trait.attrs,
         vis: item_trait.vis,
+        unsafety: item_trait.unsafety,
         trait_token: item_trait.trait_token,
         ident: item_trait.ident,
         generics: TraitGenerics {
